@@ -625,20 +625,21 @@ impl<'a> Explorer<'a> {
 
 /// Build a script prefix by opcode *names*: at each step pick the named opcode among the enabled ones
 /// (default answers for all value draws). Returns the representative of the reached state.
-pub fn scenario(ex: &Explorer, frame: bool, plan: &[u8]) -> Result<Rep, String> {
+pub fn scenario(ex: &Explorer, frame: bool, plan: &[Vec<u8>]) -> Result<Rep, String> {
     let mut script: Vec<u8> = if ex.base_cfg.proto >= 4 { vec![frame as u8] } else { vec![] };
     let (_c, _r, tr0) = ex.run(&script, 0);
     let mut enabled = tr0.loop_end.as_ref().map(|x| x.0.clone()).ok_or("no LoopEnd")?;
     script.truncate(tr0.consumed);
-    for (k, want) in plan.iter().enumerate() {
-        let idx = enabled
+    for (k, wants) in plan.iter().enumerate() {
+        // first preference that is enabled
+        let (idx, want) = wants
             .iter()
-            .position(|c| c == want)
-            .ok_or_else(|| format!("scenario: opcode {} not enabled at step {k}", lexer::name(*want)))?;
+            .find_map(|w| enabled.iter().position(|c| c == w).map(|i| (i, *w)))
+            .ok_or_else(|| format!("scenario: none of {:?} enabled at step {k}", wants.iter().map(|w| lexer::name(*w)).collect::<Vec<_>>()))?;
         script.extend_from_slice(&script::enc_index(idx as u64, enabled.len() as u64));
         let (_c, _r, tr) = ex.run(&script, k + 1);
-        if tr.steps.len() != k + 1 || tr.steps.last().and_then(|s| s.chosen) != Some(*want) {
-            return Err(format!("scenario: step {k} did not choose {}", lexer::name(*want)));
+        if tr.steps.len() != k + 1 || tr.steps.last().and_then(|s| s.chosen) != Some(want) {
+            return Err(format!("scenario: step {k} did not choose {}", lexer::name(want)));
         }
         script.resize(tr.consumed, 0);
         enabled = tr.loop_end.as_ref().map(|x| x.0.clone()).ok_or("no LoopEnd")?;
